@@ -54,9 +54,9 @@ def run(ctx):
                 order = ""
                 ordspec = None
                 if r.chance(1, 3):
-                    oi = r.below(len(gk) + len(aggs))
-                    desc = r.chance(1, 2)
-                    ordspec = (oi, desc)
+                    # one or two ORDER BY terms, each with its own direction
+                    ois = r.sample(list(range(len(gk) + len(aggs))), min(len(gk) + len(aggs), r.range(1, 2)))
+                    ordspec = [(oi, r.chance(1, 2)) for oi in ois]
                 # every fourth query does not select (all of) its keys: the partition is by the GROUP BY list all the same
                 hidden = r.chance(1, 4)
                 if hidden:
@@ -94,7 +94,7 @@ def run(ctx):
                     continue
                 sel_items = gk + ["%s(%s)" % (a, arg) for a in aggs]
                 if ordspec:
-                    order = " order by %s%s" % (sel_items[ordspec[0]], " desc" if ordspec[1] else "")
+                    order = " order by " + ", ".join("%s%s" % (sel_items[oi], " desc" if desc else "") for oi, desc in ordspec)
                 q = "select %s from .%s group by %s%s into list" % (", ".join(sel_items), where, ", ".join(gk), order)
                 qrows = "select %s, %s from .%s into list" % (", ".join(gk), arg, where)
                 ctx.case((t, q))
@@ -133,11 +133,8 @@ def run(ctx):
                     if sum(int(rw[ci]) for rw in rows) != sum(len(v) for v in groups.values()):
                         ctx.oracle_fail("group COUNTs do not add up", case)
                 if ordspec:
-                    oi, desc = ordspec
-                    col = [rw[oi] for rw in rows]
-
                     def keyf(c):
-                        # numbers (integers, and the fractions AVG / variances give) by value, anything else as text
+                        # numbers (integers, and the fractions AVG / variances give) by value and before anything else, the rest as text (D80)
                         try:
                             return (0, int(c))
                         except ValueError:
@@ -146,12 +143,22 @@ def run(ctx):
                             return (0, float(c))
                         except ValueError:
                             return (1, c)
-                    ks = [keyf(c) for c in col]
-                    # (numbers before everything that is no number: one order for a mixed column, D80)
-                    if True:
-                        srt = sorted(ks, reverse=desc)
-                        if ks != srt:
-                            ctx.oracle_fail("ORDER BY does not sort the group rows", case, detail={"column": [c.decode("utf-8", "replace") for c in col][:10]})
+                    # every adjacent pair of rows is in order under the key list: the first term that tells them apart
+                    # decides, in its own direction
+                    for i in range(len(rows) - 1):
+                        verdict = 0
+                        for oi, desc in ordspec:
+                            ka, kb = keyf(rows[i][oi]), keyf(rows[i + 1][oi])
+                            if ka == kb:
+                                if rows[i][oi] == rows[i + 1][oi]:
+                                    continue
+                                break       # two spellings of one number (10, 1e1): different cells, either order is sorted
+                            verdict = (1 if ka < kb else -1) * (-1 if desc else 1)
+                            break
+                        if verdict < 0:
+                            ctx.oracle_fail("ORDER BY does not sort the group rows", case,
+                                            detail={"order_by": order.strip(), "rows": [[c.decode("utf-8", "replace") for c in rw] for rw in rows[i:i + 2]]})
+                            break
                 ctx.sample({"argv": [q], "groups": len(groups)}, every=37)
             common.rm_tree(snap.root)
     finally:
